@@ -249,11 +249,57 @@ def generate(tier):
     # (the supertrait predicates only show against a conditional partner: all one-parameter states with a conditional hand-written partner)
     from .common import with_decoys
     cases += [d for d in (with_decoys(c) for c in base if c.key.endswith('|cond') and ',' not in c.key.split('|')[4] and c.key.split('|')[4] in ('0', '1')) if d is not None]
+    cases += noparam_cases()
     seen, out = set(), []
     for c in cases:
         if c.key not in seen:
             seen.add(c.key)
             out.append(c)
+    return out
+
+
+def noparam_cases():
+    """types whose parameter list holds no *type* parameter (const and lifetime parameters only): the automatic predicates on the field types and on Self are needed all the same,
+    because an impl of the field type (or the hand-written partner) may depend on the const argument or the lifetime"""
+    out = []
+    only = {'Debug': "impl std::fmt::Debug for Only<0> { fn fmt(&self, f: &mut std::fmt::Formatter<'_>) -> std::fmt::Result { f.write_str(\"o\") } }",
+            'Clone': 'impl Clone for Only<0> { fn clone(&self) -> Self { Only(self.0) } }',
+            'PartialEq': 'impl PartialEq for Only<0> { fn eq(&self, o: &Self) -> bool { self.0 == o.0 } }',
+            'Hash': 'impl std::hash::Hash for Only<0> { fn hash<HH: std::hash::Hasher>(&self, h: &mut HH) { h.write_u8(self.0) } }',
+            'Default': 'impl Default for Only<0> { fn default() -> Self { Only(0) } }',
+            'PartialOrd': 'impl PartialEq for Only<0> { fn eq(&self, o: &Self) -> bool { self.0 == o.0 } }\nimpl PartialOrd for Only<0> { fn partial_cmp(&self, o: &Self) -> Option<std::cmp::Ordering> { self.0.partial_cmp(&o.0) } }'}
+    for t, imp in only.items():
+        tl = {'PartialOrd': 'PartialEq, PartialOrd'}.get(t, t)
+        for kind, decl in (('sn', "pub struct Ty<const CN: usize> { pub a: u8, pub o: Only<CN> }"), ('st', "pub struct Ty<'a, const CN: usize>(pub &'a u8, pub Only<CN>);"),
+                           ('en', "pub enum Ty<const CN: usize> { #[educe(Default)] A(Only<CN>), B { x: u8 } }")):
+            d = decl if t == 'Default' else decl.replace('#[educe(Default)] ', '')
+            if t == 'Default' and kind == 'st':
+                continue        # (&'a u8 has no Default)
+            inst = "Ty<%s{N}>" % ("'static, " if kind == 'st' else '')
+            src = 'pub struct Only<const K: usize>(pub u8);\n%s\n#[derive(Educe)]\n#[educe(%s)]\n%s\n' % (imp, tl, d)
+            src += ('pub fn check(r: &mut Rep) {\n    r.ck(probe!(%s: %s), 0, &|| "the impl does not apply where the field type implements the trait (const argument 0)".to_string());\n'
+                    '    r.ck(!probe!(%s: %s), 1, &|| "the impl applies although the field type does not implement the trait (const argument 1)".to_string());\n}\n') % (
+                inst.replace('{N}', '0'), PATH[t], inst.replace('{N}', '1'), PATH[t])
+            out.append(Case('C11|no-type-param|const-dependent-field|%s|%s' % (t, kind), src, {'trait': t, 'shape': kind, 'parameters': 'const (and lifetime) only'}, expect='accept', run=True, depth=1))
+    # the array impls of Default stop at 32
+    src = ('#[derive(Educe)]\n#[educe(Default, Debug)]\npub struct Ty<const CN: usize> { pub len: usize, pub data: [u8; CN] }\n'
+           'pub fn check(r: &mut Rep) {\n    r.ck(probe!(Ty<4>: Default), 0, &|| "Ty<4> is not Default".to_string());\n    r.ck(!probe!(Ty<40>: Default), 1, &|| "Ty<40> is Default although [u8; 40] is not".to_string());\n'
+           '    r.ck(probe!(Ty<40>: std::fmt::Debug), 2, &|| "Ty<40> is not Debug".to_string());\n}\n')
+    out.append(Case('C11|no-type-param|array-default', src, {'trait': 'Default', 'parameters': 'const only'}, expect='accept', run=True, depth=1))
+    # a lifetime-dependent impl of the field type
+    src = ("pub struct Tagged<'a>(pub &'a u8);\nimpl PartialEq for Tagged<'static> { fn eq(&self, o: &Self) -> bool { self.0 == o.0 } }\n"
+           "#[derive(Educe)]\n#[educe(PartialEq)]\npub enum Ty<'a, const CK: u8> { A(Tagged<'a>), B }\nstatic ONE: u8 = 1;\n"
+           "pub fn check(r: &mut Rep) {\n    let x: Ty<'static, 1> = Ty::A(Tagged(&ONE));\n    r.ck(x == Ty::A(Tagged(&ONE)) && x != Ty::B, 0, &|| \"== does not compare the fields\".to_string());\n"
+           "    r.ck(probe!(Ty<'static, 1>: PartialEq), 1, &|| \"not PartialEq at 'static\".to_string());\n}\n")
+    out.append(Case('C11|no-type-param|lifetime-dependent-field', src, {'trait': 'PartialEq', 'parameters': 'lifetime + const'}, expect='accept', run=True, depth=1))
+    # the supertrait predicate on Self against a partner that exists for one const argument only
+    for t, partner, sup in (('PartialOrd', 'impl PartialEq for Ty<0> { fn eq(&self, o: &Self) -> bool { self.0 == o.0 } }', 'PartialEq'),
+                            ('Eq', 'impl PartialEq for Ty<0> { fn eq(&self, o: &Self) -> bool { self.0 == o.0 } }', 'PartialEq'),
+                            ('Copy', 'impl Clone for Ty<0> { fn clone(&self) -> Self { Ty(self.0) } }', 'Clone')):
+        src = ('#[derive(Educe)]\n#[educe(%s)]\npub struct Ty<const CN: usize>(pub u32);\n%s\n'
+               'pub fn check(r: &mut Rep) {\n    r.ck(probe!(Ty<0>: %s), 0, &|| "the impl does not apply where the hand-written %s exists".to_string());\n'
+               '    r.ck(!probe!(Ty<1>: %s), 1, &|| "the impl applies where the supertrait %s is missing".to_string());\n}\n') % (t, partner, PATH[t], sup, PATH[t], sup)
+        out.append(Case('C11|no-type-param|const-dependent-partner|%s' % t, src, {'trait': t, 'partner': sup, 'parameters': 'const only'}, expect='accept', run=True, depth=1))
     return out
 
 
